@@ -45,6 +45,12 @@ def gen_formula(rng, sp, syms, allow_ceil=True, allow_heav=True, allow_minmax=Tr
             a, b = rng.choice(syms), sp.Integer(rng.randint(1, 5))
             return sp.Heaviside(a - b - sp.Rational(1, 2)) * mono()
         return mono()
+    if allow_minmax and rng.random() < 0.12:
+        # a Min / Max at the top whose arguments may have different signs on the box
+        def lin():
+            t = mono() - sp.Rational(rng.randint(0, 9), rng.choice([1, 2]))
+            return t if rng.random() < 0.6 else -t
+        return rng.choice([sp.Max, sp.Min])(lin(), lin() if rng.random() < 0.8 else sp.Integer(rng.randint(-3, 3)))
     n = rng.randint(1, 3)
     f = 0
     for _ in range(n):
@@ -59,7 +65,7 @@ def brute(sp, f, bounds):
     syms = [s for s, _, _ in bounds]
     out = []
     for pt in itertools.product(*[range(lo, hi + 1) for _, lo, hi in bounds]):
-        v = f.subs(dict(zip(syms, pt)))
+        v = f.xreplace({s_: sp.Integer(x_) for s_, x_ in zip(syms, pt)})     # structural: sympy's assumption-driven simplification during subs is itself unsound (F15)
         v = sp.nsimplify(v) if not v.is_Rational else v
         out.append((pt, Fraction(int(v.p), int(v.q)) if v.is_Rational else Fraction(float(v)).limit_denominator(10 ** 9)))
     return out
@@ -172,13 +178,15 @@ def run(ck):
         try:
             bmap = {str(b_[0]): (b_[1], b_[2]) for b_ in bounds}
             for g in traced[:60]:
+                if getattr(g, "has", None) and g.has(sp.ceiling):
+                    g = erase(sp, g)          # what the comparator really hands to sympy: the formula with its ceilings erased
                 fs_ = sorted(getattr(g, "free_symbols", ()), key=str)
                 if not fs_ or any(str(x) not in bmap for x in fs_) or g.has(sp.ceiling) or g.has(sp.Heaviside):
                     continue
                 pts = list(itertools.product(*[range(bmap[str(x)][0], bmap[str(x)][1] + 1) for x in fs_]))
                 if len(pts) > 400:
                     continue
-                vals_g = [g.subs(dict(zip(fs_, pt_))) for pt_ in pts]
+                vals_g = [g.xreplace({a_: sp.Integer(b_) for a_, b_ in zip(fs_, pt_)}) for pt_ in pts]
                 for rel, holds in ((g >= 0, lambda x: x >= 0), (g <= 0, lambda x: x <= 0)):
                     if rel == sp.true and not all(bool(holds(v_)) for v_ in vals_g) or rel == sp.false and any(bool(holds(v_)) for v_ in vals_g):
                         finding = "F15"
